@@ -12,6 +12,7 @@ pub mod c05;
 pub mod c06;
 pub mod c07;
 pub mod c08;
+pub mod c09;
 pub mod c10;
 pub mod c12;
 pub mod c13;
@@ -38,6 +39,7 @@ pub fn lookup(id: &str) -> Option<Entry> {
         "C06" => Entry { id: "C06", run: c06::run, replay: c06::replay },
         "C07" => Entry { id: "C07", run: c07::run, replay: c07::replay },
         "C08" => Entry { id: "C08", run: c08::run, replay: c08::replay },
+        "C09" => Entry { id: "C09", run: c09::run, replay: c09::replay },
         "C10" => Entry { id: "C10", run: c10::run, replay: c10::replay },
         "C12" => Entry { id: "C12", run: c12::run, replay: c12::replay },
         "C13" => Entry { id: "C13", run: c13::run, replay: c13::replay },
